@@ -294,6 +294,19 @@ def lookup_table(chk, rule):
             if read - stored - set(sel.class_attrs):
                 chk.bad(rule, get.qual, "get_rule reads self.%s, which the selector's constructor never sets: every lookup raises AttributeError" % sorted(read - stored)[0], node=get.node, stmt="table-not-stored")
                 return
+    # a table that lives on the class is shared by every selector of the process
+    stored_always = None
+    for o in Interp(prog, init).run():
+        if o.kind in ("normal", "return"):
+            st_ = {e[1][2] for e in o.path.events if e[0] == "store" and e[1][0] == "attr" and e[1][1] == SELF}
+            stored_always = st_ if stored_always is None else stored_always & st_
+    for a in sorted(read & set(sel.class_attrs)):
+        v = sel.class_attrs[a]
+        mutable = isinstance(v, (ast.Dict, ast.List, ast.Set)) or (isinstance(v, ast.Call) and util.dotted(v.func) in ("dict", "list", "set", "collections.OrderedDict", "OrderedDict", "defaultdict", "collections.defaultdict"))
+        chk.count()
+        if mutable and a not in (stored_always or set()):
+            chk.bad(rule, get.qual, "get_rule reads self.%s, a mutable object defined on the CLASS that the constructor does not re-bind per instance: every Stepwise controller of the process shares (and extends) one rule table" % a, node=get.node, stmt="table-shared %s" % a)
+            return
     if comp is None:
         chk.undecided(rule, init.qual, "the selector's constructor does not store a table compiled by an own method", node=init.node, aux=True)
         return
@@ -354,6 +367,30 @@ def lookup_table(chk, rule):
             ok = False
             continue
         lo, hi = key[1]
+        # (low, high) taken as ONE pair from a pairing helper:  for (low, high), rule in zip(pairs(bounds), rules)
+        if lo[0] == "proj" and hi[0] == "proj" and lo[1] == hi[1] and lo[1][0] == "proj" and lo[1][1][0] == "item" and val[0] == "proj" and val[1] == lo[1][1]:
+            z = lo[1][1][1]
+            if z[0] == "call" and z[1] == ("glob", "ext:builtins.zip") and len(z[2]) == 2:
+                pairs_src, rules_src = z[2][lo[1][2]], z[2][val[2]]
+                if pairs_src[0] == "call" and pairs_src[1][0] == "glob" and len(pairs_src[2]) == 1:
+                    fn = pairs_src[1][1]
+                    pfi = prog.functions.get(fn)
+                    non_overlapping = pfi is not None and any(isinstance(c, ast.Call) and util.dotted(c.func) == "zip" and len(c.args) == 2 and ast.dump(c.args[0]) == ast.dump(c.args[1]) for c in ast.walk(pfi.node))
+                    chk.count()
+                    if non_overlapping:
+                        chk.bad(rule, comp.qual, "the ranges are taken from %s(bounds), which yields NON-overlapping pairs (b0,b1), (b2,b3), ...: every other supply range is missing from the table and the rules are shifted against their thresholds" % fn.split(":")[-1], node=comp.node, stmt="table-ranges-non-overlapping")
+                        ok = False
+                        continue
+                    if fn == "ext:itertools.pairwise":
+                        bparts, rparts = _seq_parts(pairs_src[2][0]), _seq_parts(rules_src)
+                        bok = len(bparts) == 3 and bparts[0] == ("elem", ("const", 0)) and bparts[1][0] == "seq" and bparts[2][0] == "elem" and bparts[2][1] in INF_TERMS
+                        rok = len(rparts) == 2 and rparts[0] == ("elem", BASE) and rparts[1][0] == "seq"
+                        if bok and rok:
+                            n_entries += 1
+                            continue
+                chk.undecided(rule, comp.qual, "table keys come from %s" % show(pairs_src), node=comp.node, aux=True)
+                ok = False
+                continue
         projs = [lo, hi, val]
         if not all(x[0] == "proj" and x[1][0] == "item" for x in projs) or len({x[1] for x in projs}) != 1:
             chk.undecided(rule, comp.qual, "table entry (%s, %s) -> %s is not taken from one zipped item" % (show(lo), show(hi), show(val)), node=comp.node, aux=True)
@@ -777,8 +814,6 @@ def switch(chk):
                 chk.bad(rule, name, "iteration %d does not decide threshold <= demand exactly (remaining orderings %s)" % (i, sorted(s)), node=fi.node, stmt="guard-orientation", input=sorted(s))
                 ok = False
                 matched.append((i, slv, None))
-        if src is not None and src != ("attr", SELF, slots.attr_from_expr(prog, prog.cls(SWITCH), lambda v, t: "slaves" in t, "slave table")):
-            pass
         want = DEFAULT
         for i, slv, m in matched:
             if m:
@@ -807,7 +842,16 @@ def switch(chk):
     src = ast.unparse(init.node)
     chk.count(3)
     ok2 = True
-    slaves_assign = [n for n in ast.walk(init.node) if isinstance(n, ast.Assign) and any(isinstance(t, ast.Attribute) and t.attr == slots.attr_from_expr(prog, prog.cls(SWITCH), lambda v, t: "slaves" in t, "slave table") for t in n.targets)]
+    try:
+        table_attr = slots.attr_from_expr(prog, prog.cls(SWITCH), lambda v, t: "slaves" in t, "slave table")
+        slaves_assign = [n for n in ast.walk(init.node) if isinstance(n, ast.Assign) and any(isinstance(t, ast.Attribute) and t.attr == table_attr for t in n.targets)]
+    except Undecided:
+        # the sorted pairs are kept in a local and split into parallel attributes: the local's assignment is what sorts
+        slaves_assign = [n for n in ast.walk(init.node) if isinstance(n, ast.Assign) and "slaves" in ast.unparse(n.value) and any(isinstance(t, ast.Name) for t in n.targets)]
+        used = {t.id for n in slaves_assign for t in n.targets if isinstance(t, ast.Name)}
+        kept = [n for n in ast.walk(init.node) if isinstance(n, ast.Assign) and any(isinstance(t, ast.Attribute) for t in n.targets) and any(isinstance(x, ast.Name) and x.id in used for x in ast.walk(n.value))]
+        if not slaves_assign or len(kept) < 2:
+            raise
     asc_ok, _n = ascending_sort(chk, rule, init, "the slaves")
     if not asc_ok:
         ok2 = False
